@@ -62,6 +62,71 @@ def rotmat(k):
             3: np.array([[0, 1, 0], [0, 0, 1], [1, 0, 0.0]]), 4: np.array([[0.6, -0.8, 0], [0.8, 0.6, 0], [0, 0, 1.0]])}[k]
 
 
+_ENG = {}
+
+
+def _stub_engine():
+    """The concrete methods of EngineBase (calculate_order, snapshot_to_system) on a subclass without a program behind it."""
+    if "cls" not in _ENG:
+        from infretis.classes.engines.enginebase import EngineBase
+
+        class Stub(EngineBase):
+            def __init__(self):      # noqa: D107
+                self.order_function = None
+
+            def _extract_frame(self, *a): pass            # noqa: E704
+            def _propagate_from(self, *a, **k): pass      # noqa: E704
+            def _read_configuration(self, *a): pass       # noqa: E704
+            def _reverse_velocities(self, *a): pass       # noqa: E704
+            def modify_velocities(self, *a): pass         # noqa: E704
+            def set_mdrun(self, *a): pass                 # noqa: E704
+        _ENG["cls"] = Stub
+    return _ENG["cls"]()
+
+
+def path_reverse_case(p0, p1, v0, v1, box):
+    """C20 anchors Path.reverse ("recomputes velocity-dependent orders"): the time-reversed path carries the same position-type values in
+    reverse order and the velocity-type values with the opposite sign; reversing twice restores them; the original is not modified.
+    Frames are built the way the engines build them (calculate_order + snapshot_to_system: positions and velocities are not kept in the
+    phase point) and, as a second form, with the arrays kept."""
+    from infretis.classes import orderparameter as OP
+    from infretis.classes.path import Path
+    from infretis.classes.system import System
+    fails = []
+    for form in ("engine", "stored"):
+        for name, op, sign in (("Distance", OP.Distance((0, 1), periodic=True), 1), ("Distancevel", OP.Distancevel((0, 1), periodic=True), -1),
+                               ("Velocity", OP.Velocity(1, dim="y"), -1)):
+            eng = _stub_engine()
+            eng.order_function = op
+            path, tmpl = Path(maxlen=10), System()
+            for k in range(3):
+                xyz = np.array([p0, p1], dtype=float) + 0.01 * k
+                vel = np.array([v0, v1], dtype=float) * (1 + k)
+                order = eng.calculate_order(tmpl, xyz=xyz, vel=vel, box=np.array(box, dtype=float))
+                snap = {"order": order, "config": ("frames.xyz", k), "vel_rev": False}
+                if form == "stored":
+                    snap.update(pos=xyz, vel=vel)
+                path.append(eng.snapshot_to_system(tmpl, snap))
+            orig = [list(s.order) for s in path.phasepoints]
+            try:
+                rev = path.reverse(op)
+                back = rev.reverse(op)
+            except Exception as exc:  # noqa: BLE001
+                fails.append((f"PathReverse:{name}:raise:{type(exc).__name__}:{form}", f"Path.reverse with the {name} order parameter on {form}-style phase points raised "
+                                                                                     f"{type(exc).__name__}: {str(exc)[:100]}"))
+                continue
+            got = [list(s.order) for s in rev.phasepoints]
+            want = [[sign * x for x in o] for o in reversed(orig)]
+            if any(abs(a - b) > TOL for g, w in zip(got, want) for a, b in zip(g, w)) or len(got) != len(want):
+                fails.append((f"PathReverse:{name}:{'sign' if sign < 0 else 'value'}:{form}", f"the reversed path carries {name} values {got}, expected {want} "
+                                                                                             f"({'opposite sign' if sign < 0 else 'unchanged'}, reverse order)"))
+            elif [list(s.order) for s in back.phasepoints] != orig and any(abs(a - b) > TOL for g, w in zip([list(s.order) for s in back.phasepoints], orig) for a, b in zip(g, w)):
+                fails.append((f"PathReverse:{name}:twice:{form}", "reversing twice does not restore the order-parameter values"))
+            if [list(s.order) for s in path.phasepoints] != orig or any(s.vel_rev for s in path.phasepoints):
+                fails.append((f"PathReverse:{name}:modifies-original:{form}", "Path.reverse changed the path it was called on"))
+    return fails
+
+
 def eval_case(st):
     from infretis.classes import orderparameter as OP
     fails = []
@@ -109,6 +174,8 @@ def eval_case(st):
             fails.append(("Position:reverse", "a position-type parameter changed under velocity reversal"))
         if vv is not None and vv2 is not None and abs(vv2[0] + vv[0]) > TOL:
             fails.append(("Velocity:reverse", "a velocity-type parameter did not change sign under velocity reversal"))
+    if kind == "reverse":
+        fails += path_reverse_case(p0, p1, v0, v1, box)
     # angle-type parameters: relation between the values before and after the same action
     rnd = random.Random(hash((tuple(p0), tuple(p1), tuple(box), json.dumps(act, sort_keys=True))) & 0xffffff)
     L = 31.0
